@@ -5,17 +5,15 @@ from props import seq_common as sc
 
 def consts(tier):
     if tier == "quick":
-        base = dict(Ops=set(sc.ALL_OPS), NSrc=3, NRun=2, MaxLen=1, Gaps={0, 1}, Uniform=True, Terms={"C", "E", "U"},
-                    Counts={0, 1, 2, 3}, Cuts={0, 2}, Disposes=False, DspMax=2, Faults=False, NSubs=1, NConds=2, NArgs=2, Build=False)
-        return [
-            # three sources: the operators that differ in code; oern_f shares on_error_resume_next's loop and is run with <= 2
-            ("list", dict(base, Ops={"concat", "for_in", "catch", "oern"}, Cuts={0}), {}),
-            ("run", dict(base, NSrc=2, Counts={0, 1, 2}), {}),   # every operator; list operators with <= 2 sources, take(2)
-            ("dispose", dict(base, NSrc=2, NRun=1, Disposes=True, Cuts={0}, Counts={2}, NConds=1, NArgs=1), {}),
-            ("faults", dict(base, NSrc=2, NRun=1, Faults=True, Ops=set(sc.CB_OPS), Cuts={0}), {}),
-        ]
+        # ONE TLC invocation (a JVM start costs 1 s on a quiet box but a minute on a loaded one): every operator,
+        # <= 3 sources / 2 run timelines x <= 1 element, gaps {0,1}, counts 0..2 and unbounded, take(2), dispose
+        # instants 0..2; Slim (SlimOK in the module) keeps the expensive dimensions from multiplying
+        return [("quick", dict(Ops=set(sc.ALL_OPS), NSrc=3, NRun=2, MaxLen=1, Gaps={0, 1}, Uniform=True, Terms={"C", "E", "U"},
+                               Counts={0, 1, 2}, Cuts={0, 2}, Disposes=True, DspMax=2, Faults=False, NSubs=1, NConds=2, NArgs=2,
+                               Build=False, Slim=True), {})]
+        # (the raising-callback dimension, which belongs to C09, is run in the thorough tier only)
     base = dict(Ops=set(sc.ALL_OPS), NSrc=3, NRun=3, MaxLen=2, Gaps={0, 1}, Uniform=True, Terms={"C", "E", "U"},
-                Counts={0, 1, 2, 3}, Cuts={0, 1, 3}, Disposes=False, DspMax=4, Faults=False, NSubs=1, NConds=2, NArgs=2, Build=False)
+                Counts={0, 1, 2, 3}, Cuts={0, 1, 3}, Disposes=False, DspMax=4, Faults=False, NSubs=1, NConds=2, NArgs=2, Build=False, Slim=False)
     free = dict(base, Uniform=False, Gaps={0, 1, 2}, NSrc=2, NRun=2, NConds=2)
     return [
         ("list-a", dict(base, Ops={"concat", "for_in"}), {}),
@@ -38,7 +36,7 @@ def simulate_consts(seed):
     lists that could never be enumerated (280 timelines ^ 4)."""
     c = dict(Ops=set(sc.ALL_OPS), NSrc=4, NRun=3, MaxLen=3, Gaps={0, 1, 2}, Uniform=False, Terms={"C", "E", "U"},
              Counts={0, 1, 2, 3, 4, 5}, Cuts={0, 1, 2, 4}, Disposes=True, DspMax=6, Faults=False, NSubs=1, NConds=3, NArgs=2,
-             Build=True)
+             Build=True, Slim=False)
     return [("simulate-list", dict(c, Ops=set(sc.LIST_OPS) | {"start_with", "catch_handler"}), dict(simulate="num=2500", depth=60, seed=seed)),
             ("simulate-run", dict(c, Ops=set(sc.RUN_OPS)), dict(simulate="num=1500", depth=80, seed=seed + 1))]
 
@@ -57,8 +55,7 @@ def run(tier):
     for label, gs in groups.items():
         for g in gs:
             # the dispose / fault runs also re-export the plain scenarios of their smaller bounds: skip the duplicates
-            if (label == "dispose" and g[0]["dsp"] == sc.NEVER) or (label == "faults" and not g[0]["flt"]) or \
-                    (tier == "quick" and label == "run" and g[0]["op"] in ("concat", "for_in", "catch", "oern") and not g[0]["cut"]):
+            if (label == "dispose" and g[0]["dsp"] == sc.NEVER) or (label == "faults" and not g[0]["flt"]):
                 continue
             rich = tier != "quick" and not (label.startswith("free") or label.startswith("simulate"))
             (side if g[0]["flt"] else main).append((g[0], g[1], rich))
